@@ -20,6 +20,7 @@ RULE = (
     "unknown or non-string names), built three ways (specific class, unified class, parse_message); oracle: never raises, exactly one grammar-valid response with the "
     "request's id and the documented error code, none for notifications, response line re-parses to itself; non-trivial = a notification other than notifications/initialized, "
     "or a raising / non-string-returning handler, or id in {0, '', negative}; distinct = distinct case"
+    "; added in rounds 6-7 of the seeded changes: 2..4 messages in flight on one server incl. the same id on two connections; 64 (exception type, text) pairs; 44 colliding argument names"
 )
 ASSUMPTIONS = [
     "well-formed incoming request = a message the library's own constructors/parser accept (string method, id string or integer)",
